@@ -218,6 +218,8 @@ def _exp_of(self, st, x):
     if is_conc_real(t) and (self.opts.get('concrete_defaults') or self.opts.get('numeric_exp')):
         import math
         st.exp_conc = getattr(st, 'exp_conc', ()) + (t,)
+        if getattr(st, 'exp_scope', None) is not None:
+            st.exp_scope = st.exp_scope + (_rv(t),)
         return Fraction(math.exp(float(t)))      # concrete validation run: numeric value, compared to 1e-9
     term = _rv(t) if is_conc_real(t) else t.term()
     term = z3.simplify(term)
@@ -234,6 +236,8 @@ def _exp_of(self, st, x):
         st.path.append(c)
         st.model = None      # the cached model may not satisfy the new axiom instance
     st.exp_args = getattr(st, 'exp_args', ()) + ((term, app),)
+    if getattr(st, 'exp_scope', None) is not None:
+        st.exp_scope = st.exp_scope + (term,)
     return SR(app, 1)
 
 
@@ -683,6 +687,22 @@ def b_check_exp_args(E, st, fr, ins, args):
     return None
 
 
+def b_exp_scope_begin(E, st, fr, ins, args):
+    st.exp_scope = ()
+    return None
+
+
+def b_check_exp_no_overflow(E, st, fr, ins, args):
+    """floating-point range obligation: no argument handed to exp() inside the scope can exceed 709 (exp overflows a double above
+    709.78), whatever the values of the symbols are"""
+    label = E.cstring(st, args[0])
+    terms = getattr(st, 'exp_scope', None) or ()
+    conds = [t <= 709 for t in terms]
+    _do_check(E, st, z3.And(*conds) if conds else True, label + ': no exp argument exceeds 709 (overflow of a double)')
+    st.exp_scope = None
+    return None
+
+
 def b_concretize(E, st, fr, ins, args):
     v = args[0]
     if type(v) is int:
@@ -763,6 +783,7 @@ EXACT = {
     '__v_check_eq': b_check_eq, '__v_check_le': b_check_le, '__v_reach': b_reach, '__v_note': b_note,
     '__v_record': b_record, '__v_record_int': b_record_int, '__v_exp_lemma_add': b_exp_lemma_add,
     '__v_exp_lemma_inv': b_exp_lemma_inv, '__v_concretize': b_concretize, '__v_check_exp_args': b_check_exp_args,
+    '__v_exp_scope_begin': b_exp_scope_begin, '__v_check_exp_no_overflow': b_check_exp_no_overflow,
     '__v_thread_create': b_thread_create, '__v_switch': b_switch, '__v_thread_finished': b_thread_finished, '__v_cur_thread': b_cur_thread,
     # std exception plumbing that lives in libstdc++.so
     '_ZNSt9exceptionD2Ev': b_nop, '_ZNSt9exceptionD1Ev': b_nop, '_ZNSt9bad_allocD1Ev': b_nop,
@@ -818,7 +839,7 @@ def install(E):
     E.std_typeinfo = lambda st, kind: _std_typeinfo(E, st, kind)
     # names that must take precedence over definitions in the module
     for n in ('__v_sym_int', '__v_sym_real', '__v_assume', '__v_check', '__v_check_eq', '__v_check_le', '__v_reach',
-              '__v_note', '__v_record', '__v_record_int', '__v_exp_lemma_add', '__v_exp_lemma_inv', '__v_concretize', '__v_check_exp_args',
+              '__v_note', '__v_record', '__v_record_int', '__v_exp_lemma_add', '__v_exp_lemma_inv', '__v_concretize', '__v_check_exp_args', '__v_exp_scope_begin', '__v_check_exp_no_overflow',
               '__v_thread_create', '__v_switch', '__v_thread_finished', '__v_cur_thread',
               '_Znwm', '_Znam', '_ZdlPv', '_ZdaPv', '_ZdlPvm', 'malloc', 'free', 'calloc', 'realloc'):
         E.builtins[n] = EXACT[n]
